@@ -106,6 +106,15 @@ Theorem C10_converge_sequential : forall (n : nat) (pre : list step),
 Proof. exact converge_sequential. Qed.
 Print Assumptions C10_converge_sequential.
 
+(* when a git fetch / git pull through the proxy returns -- by whichever exit of the post hook --
+   the clone has every note the remote had when the command started (the background notes fetch is
+   joined on every exit: Gen/GenSync.v; false as soon as one exit does not join) *)
+Theorem C10_pull_returns_synced : forall (n : nat) (pre : list step) (e : pull_exit) (c : nat), (c < n)%nat ->
+  sub_keys (remote_map (run (init n) pre)) (local_map (run (init n) (pre ++ PullNotes e c)) c) /\
+  sub_keys (remote_map (run (init n) pre)) (local_map (run (init n) (pre ++ FetchNotes c)) c).
+Proof. exact (fun n pre e c H => conj (pull_returns_synced n pre e c H) (fetch_returns_synced n pre c H)). Qed.
+Print Assumptions C10_pull_returns_synced.
+
 (* one side without a notes ref takes the other side's tip (copy branch / creating push); holds
    in every state, reachable or not *)
 Theorem C10_first_sync :
